@@ -6,11 +6,11 @@
    moved-from).  Array contents are lists of `option V` (None = a moved-from element); arr_ofo l r = an array holding exactly the
    objects l followed by r unconstructed slots (arr_of l r = all elements live).  `= Ok ...` means: no failed MOMO_CHECK/MOMO_ASSERT,
    no access to unconstructed storage, no construction over a live object, no stale reference after growth. *)
-From Coq Require Import List Arith ZArith Bool.
+From Coq Require Import String List Arith ZArith Bool.
 From MomoCommon Require GenPrelude.
 From C05 Require Import ArrayShift ArrayModel ShiftProofs FilterProofs ArrayProofs SegProofs.
 From C05 Require GrowProofs Gen_Grow GuardProofs Gen_GuardsShifter Gen_GuardsArray Gen_GuardsSeg.
-From C05 Require Gen_ShiftLoops ShiftLoopProofs Gen_IndexOf IndexOfProofs InsertGlue.
+From C05 Require Gen_ShiftLoops ShiftLoopProofs Gen_IndexOf IndexOfProofs InsertGlue Gen_ArrayFacts FactsProofs.
 Import ListNotations.
 
 (* ArrayShifter::InsertNogrow(array, index, count, const Item& item): for EVERY array contents l (elements may even be
@@ -578,3 +578,68 @@ Theorem C05_gen_array_insert_spec :
       (forall j, (index + count <= j < cnt + count)%Z -> items' j = items (j - count)%Z).
 Proof. exact InsertGlue.gen_array_insert_spec. Qed.
 Print Assumptions C05_gen_array_insert_spec.
+
+(* ================= statement-order facts read off the clang AST (Gen_ArrayFacts.v, regenerated every run) ================= *)
+(* the alias condition of Array::Insert, the order inside its copy branch (ItemHandler temporary BEFORE pvGrow, then InsertNogrow from the
+   temporary), its direct branch, and the order inside the two nothrow pvAddBackGrow overloads (copy into itemBuffer before pvGrow, relocation
+   after; itemIndex before pvGrow, items pointer and re-indexed element after) are exactly these *)
+Theorem C05_facts_shape :
+  Gen_ArrayFacts.array_insert_condition = "(grow || ((index <= itemIndex) && (itemIndex < initCount)))"%string /\
+  map FactsProofs.act_of Gen_ArrayFacts.array_insert_copy_branch =
+    [Some FactsProofs.ANop; Some FactsProofs.ACopyItem; Some FactsProofs.AGrowIf; Some FactsProofs.AInsertCopy] /\
+  map FactsProofs.act_of Gen_ArrayFacts.array_insert_direct_branch = [Some FactsProofs.AInsertItem] /\
+  Gen_ArrayFacts.add_back_grow_copy_stmts =
+    ["decl initCount = GetCount()"; "decl newCount = (initCount + 1)"; "decl itemBuffer = ctor{}"; "decl memManager = GetMemManager()";
+     "operator()(ctor{memManager, item}, operator&(itemBuffer))"; "try { pvGrow(newCount, add) }";
+     "Relocate(memManager, operator&(itemBuffer), (GetItems() + initCount), 1)"; "SetCount(newCount)"]%string /\
+  Gen_ArrayFacts.add_back_grow_move_stmts =
+    ["decl initCount = GetCount()"; "decl newCount = (initCount + 1)"; "decl itemIndex = pvIndexOf(item)"; "pvGrow(newCount, add)";
+     "decl items = GetItems()";
+     "operator()(ctor{GetMemManager(), move(((itemIndex == maxSize) ? item : items[itemIndex]))}, (items + initCount))";
+     "SetCount(newCount)"]%string.
+Proof. exact FactsProofs.facts_shape. Qed.
+Print Assumptions C05_facts_shape.
+
+(* Array::Insert with BOTH branches executed from the generated statement lists (after pvGrow a reference into the old buffer is dangling:
+   reading it yields poison): item = any element or an external object, any capacity: the inserted cells hold the PRE-CALL value *)
+Theorem C05_gen_array_insert_from_facts_spec :
+  forall (growOnReserve : bool) (items : Z -> Z) (cnt cap_ base index count it ptr tmp : Z),
+    (0 <= index)%Z -> (index <= cnt)%Z -> (cnt <= cap_)%Z -> (cap_ < InsertGlue.U64 - 1)%Z -> (0 <= count)%Z -> (cnt + count < InsertGlue.U64 - 1)%Z ->
+    (0 <= base)%Z -> (base + cnt < InsertGlue.U64)%Z -> (0 <= ptr < InsertGlue.U64)%Z -> (InsertGlue.U64 <= tmp)%Z ->
+    ((0 <= it < cnt)%Z /\ ptr = (base + it)%Z \/ (InsertGlue.U64 <= it)%Z /\ (ptr < base \/ base + cnt <= ptr)%Z) ->
+    (forall r, Gen_Grow.GrowCapacity growOnReserve cap_ (cnt + count) 0 false = GenPrelude.Ok r -> (r < InsertGlue.U64 - 1)%Z) ->
+    exists items' cap', FactsProofs.gen_array_insert_f growOnReserve items cnt cap_ base index count it ptr tmp =
+                          GenPrelude.Ok (items', (cnt + count)%Z, cap') /\
+      (cnt + count <= cap')%Z /\
+      (forall j, (0 <= j < index)%Z -> items' j = items j) /\
+      (forall j, (index <= j < index + count)%Z -> items' j = items it) /\
+      (forall j, (index + count <= j < cnt + count)%Z -> items' j = items (j - count)%Z).
+Proof. exact FactsProofs.gen_array_insert_f_spec. Qed.
+Print Assumptions C05_gen_array_insert_from_facts_spec.
+
+(* non-vacuity / the I3 mutant: [7] with capacity 1, Insert(0, 1, a[0]): real order -> 7 is inserted; temporary made after the growth -> poison *)
+Theorem C05_copy_after_grow_is_wrong :
+  let items := fun j => if Z.eqb j 0 then 7%Z else 0%Z in
+  FactsProofs.cell0 (FactsProofs.run_acts true 1 0 1 0 (2 ^ 64 + 1) 2 1
+     [Some FactsProofs.ANop; Some FactsProofs.ACopyItem; Some FactsProofs.AGrowIf; Some FactsProofs.AInsertCopy] items 1 false) = Some 7%Z /\
+  FactsProofs.cell0 (FactsProofs.run_acts true 1 0 1 0 (2 ^ 64 + 1) 2 1
+     [Some FactsProofs.ANop; Some FactsProofs.AGrowIf; Some FactsProofs.ACopyItem; Some FactsProofs.AInsertCopy] items 1 false) = Some FactsProofs.poison.
+Proof. exact FactsProofs.copy_after_grow_is_wrong. Qed.
+Print Assumptions C05_copy_after_grow_is_wrong.
+
+(* [62f9657] empty ranges execute NO store: the generated Remove / InsertNogrow return the very same cell function for count = 0 *)
+Theorem C05_shift_count0_no_store :
+  forall (items : Z -> Z) (cnt cap_ index it : Z),
+    (0 <= index)%Z -> (index <= cnt)%Z -> (cnt <= cap_)%Z -> (cap_ < ShiftLoopProofs.U64 - 1)%Z ->
+    Gen_ShiftLoops.ShiftRemove items cnt cap_ index 0 = GenPrelude.Ok (tt, items, cnt) /\
+    Gen_ShiftLoops.ShiftInsert items cnt cap_ index 0 it = GenPrelude.Ok (tt, items, cnt).
+Proof. exact ShiftLoopProofs.shift_count0_no_store. Qed.
+Print Assumptions C05_shift_count0_no_store.
+
+(* SegmentedArray::Shrink(capacity) (GENERATED clamp): the capacity handed to pvDecCapacity is never below the element count *)
+Theorem C05_seg_shrink_clamp_spec :
+  forall segcap mCount capacity : Z, (mCount <= segcap)%Z ->
+    Gen_GuardsSeg.SegShrink_clamp segcap mCount capacity = (if (segcap <=? capacity)%Z then segcap else Z.max capacity mCount) /\
+    (mCount <= Gen_GuardsSeg.SegShrink_clamp segcap mCount capacity <= segcap)%Z.
+Proof. exact GuardProofs.seg_shrink_clamp_spec. Qed.
+Print Assumptions C05_seg_shrink_clamp_spec.
